@@ -544,6 +544,17 @@ func (st *State) assumeRange(t Term, typ types.Type) {
 	if t.Sort != SInt || st.inQuant > 0 {
 		return
 	}
+	if ct, ok := resolveTP(typ).Underlying().(*types.Chan); ok {
+		// channels of different element types are different objects: tag the channel with its element type
+		key := "cht:" + t.S
+		if !st.nonnil[key] {
+			st.nonnil[key] = true
+			st.vc.strLits["fun.chtag"] = "(Int) Int"
+			tag := st.vc.typeID(ct.Elem())
+			st.assume(tOr(tEq(t, tInt(0)), tEq(app("chtag", SInt, t), tag)))
+		}
+		return
+	}
 	lo, hi, ok := intRange(typ)
 	if !ok {
 		return
